@@ -77,6 +77,9 @@ def elapsed_proxy():
     f1 = sys._getframe(1)
     name = f1.f_code.co_name
     cid = THREAD_CID.get(threading.get_ident())
+    if name == '_seconds' and getattr(TL, 'sched_cid', None) is not None:     # (thread idents are reused: no cid test)
+        # _MainTimeThread._seconds inside clock.sched(delta, ...) called by a non-clock thread
+        LOG.append((TL.sched_cid, 'base', fr(t)))
     if name == '_run' and cid is not None:
         LOG.append((cid, 'time', fr(t)))
     elif name == 'elapsed_beats' and cid is not None and f1.f_back is not None \
@@ -87,6 +90,9 @@ def elapsed_proxy():
     elif name == '_sched_add' and isinstance(f1.f_locals.get('self'), clk.Scheduler):
         LOG.append(('app', 'time', fr(t)))
     return t
+
+
+TL = threading.local()
 
 
 def owned():
@@ -390,7 +396,22 @@ class Run:
             if r[0] == 'bool':
                 return True
             return None
-        t = fn.Function(body)
+        if spec.get('routine') is not None:
+            # a real Routine: yields `routine` numeric deltas, then ENDS (its last awake raises StopStream)
+            ny, dl = spec['routine'], float(Fraction(*spec.get('yield', [1, 64])))
+
+            def gen():
+                for _ in range(ny):
+                    run.count[tid] = run.count.get(tid, 0) + 1
+                    run.awakes.append([tid, real_now(), fr(main.current_tt._seconds),
+                                       THREAD_CID.get(threading.get_ident()), owned()])
+                    yield dl
+                run.count[tid] = run.count.get(tid, 0) + 1
+                run.awakes.append([tid, real_now(), fr(main.current_tt._seconds),
+                                   THREAD_CID.get(threading.get_ident()), owned()])
+            t = stm.Routine(gen)
+        else:
+            t = fn.Function(body)
         TASK_IDS[id(t)] = tid
         KEEP.append(t)
         return t
@@ -403,7 +424,20 @@ class Run:
                 time.sleep(op[1] / 1000.0)
             elif k == 'sched':
                 t0 = real_now()
-                c.sched(float(Fraction(op[2], op[3])), self.tasks[op[1]])
+                outside = who.startswith('client') or who == 'main'
+                if PROXIES and outside and self.sc['clock'] in ('sys', 'tempo'):
+                    # the whole call under the (re-entrant) main lock, so that the announcement, the time
+                    # base read by sched and the add are contiguous in the log
+                    with main._main_lock:
+                        LOG.append((self.cid, 'sched_req', [op[2], op[3]]))
+                        TL.sched_cid = self.cid
+                        try:
+                            c.sched(float(Fraction(op[2], op[3])), self.tasks[op[1]])
+                        finally:
+                            TL.sched_cid = None
+                            LOG.append((self.cid, 'sched_ret'))
+                else:
+                    c.sched(float(Fraction(op[2], op[3])), self.tasks[op[1]])
                 self.scheds.append([who, op[1], 'delta', [op[2], op[3]], t0, real_now()])
             elif k == 'abs':
                 t0 = real_now()
@@ -411,7 +445,9 @@ class Run:
                 c.sched_abs(when, self.tasks[op[1]])
                 self.scheds.append([who, op[1], 'abs', fr(when), t0, real_now()])
             elif k == 'xsched':
+                t0 = real_now()
                 clk.SystemClock.sched(float(Fraction(op[2], op[3])), self.tasks[op[1]])
+                self.scheds.append([who, op[1], 'xdelta', [op[2], op[3]], t0, real_now()])
             elif k == 'clear':
                 t0 = real_now()
                 c.clear()
@@ -545,6 +581,8 @@ class Run:
             t.start()
         for t in ths:
             t.join(30)
+        for op in sc.get('main_ops', []):      # performed by the process' main thread
+            self.do_op(op, 'main')
         # operations issued through other clocks / the OSC receive path are asynchronous: wait for them
         # (a lost datagram or a very late helper is cancelled, never executed after the scenario)
         wait_for(lambda: not self.async_open, 5)
